@@ -1453,7 +1453,10 @@ class TypeSystemSerializer:
                         # We do not want to serialize our implicitly added DocumentAnnotation.
                         # If it was defined by the user, it is in `typesystem._predefined_types`
                         # and serialized in the loop before.
-                        if type_.name == _DOCUMENT_ANNOTATION_TYPE:
+                        if type_.name == _DOCUMENT_ANNOTATION_TYPE and (
+                            type_.name in typesystem._predefined_types
+                            or [f.name for f in type_.features] == [FEATURE_BASE_NAME_LANGUAGE]
+                        ):
                             continue
 
                         self._serialize_type(xf, type_)
